@@ -536,7 +536,10 @@ def _render_fn_lines(p, fid, ctx, prelude):
 
 def render_cls(p, cid, ctx):
     c = p["classes"][cid]
-    lines = ["class %s(object):" % c["name"], "    # %s" % c.get("comment", "c0")] + (["    LEVEL = %s" % (ctx.var_expr(c["attr_var"], "bare") if c.get("attr_var") else "%d" % c["attr"]), ""] if c.get("attr") is not None or c.get("attr_var") else []) + ["    def __init__(self, a):", "        self.a = a", ""] + (["    @property"] if c.get("prop") else []) + ["    def %s(self):" % c["method"],
+    if c.get("base_ext") and p.get("ext"):
+        # the class derives from a class of the non-accepted package (whose code is none of the analysis's business)
+        ctx.add("from %s import ExtBase" % p["ext"]["pkg"])
+    lines = ["class %s(%s):" % (c["name"], "ExtBase" if c.get("base_ext") and p.get("ext") else "object"), "    # %s" % c.get("comment", "c0")] + (["    LEVEL = %s" % (ctx.var_expr(c["attr_var"], "bare") if c.get("attr_var") else "%d" % c["attr"]), ""] if c.get("attr") is not None or c.get("attr_var") else []) + ["    def __init__(self, a):", "        self.a = a", ""] + (["    @property"] if c.get("prop") else []) + ["    def %s(self):" % c["method"],
              "        vlog.hit(%r)" % (c["name"] + "." + c["method"])]
     items = ["%r" % (c["name"] + "." + c["method"]), "%d" % c["const"], "self.a"]
     if c.get("var"):
@@ -596,7 +599,7 @@ def render(p):
         files[p["lazy"]["name"] + ".py"] = lazy_text(p)
     if p.get("ext"):
         e = p["ext"]
-        files[e["pkg"].replace(".", "/") + "/__init__.py"] = "# not accepted\nEXT_VAR = %s\n\n\ndef ext_helper():\n    # %s\n    return (\"ext\", %d)\n" % (e["var"], e["comment"], e["const"])
+        files[e["pkg"].replace(".", "/") + "/__init__.py"] = "# not accepted\nEXT_VAR = %s\n\n\ndef ext_helper():\n    # %s\n    return (\"ext\", %d)\n\n\nclass ExtBase(object):\n    # %s\n    def base_info(self):\n        return (\"extbase\", %d)\n" % (e["var"], e["comment"], e["const"], e["comment"], e["const"])
     return files
 
 
@@ -748,7 +751,7 @@ def node_fp(p, node, stack=(), entry_args_src="()", externals=None):
         fid, i = node["site"]
         return h(["lambda", node["const"], _ctx_items(p, fid, memo, entry_args_src, (), externals)])
     own = _own_items(p, node["fn"], memo, stack, externals)
-    binding = [(a["k"], a.get("src"), a.get("kw")) for a in node["args"]]
+    binding = [(a["k"], a.get("src"), a.get("kw"), a.get("i")) for a in node["args"]]  # i: which local of the enclosing function feeds a run-time argument
     f = p["fns"][node["fn"]]
     items = ["own", own, binding, [d for _, d in f["params"]]]
     if node["site"] is not None and any(_is_runtime_arg(a) for a in node["args"]):
